@@ -116,6 +116,22 @@ theorem sorted_adel {β : Type} (k : Nat) (l : List (Nat × β)) (h : Sorted l) 
   unfold Sorted adel at *
   exact List.Pairwise.sublist (List.Sublist.map _ List.filter_sublist) h
 
+/-! ## frame of the store updates -/
+
+theorem putRec_frame (s : St) (mp : Mp) (r : Rec) :
+    (putRec s mp r).status = s.status ∧ (putRec s mp r).curFs = s.curFs ∧ (putRec s mp r).cfg = s.cfg ∧
+    (putRec s mp r).fsMap = s.fsMap ∧ (putRec s mp r).closed = s.closed ∧ (putRec s mp r).live = s.live ∧
+    (putRec s mp r).nextFs = s.nextFs ∧ (putRec s mp r).fsCfg = s.fsCfg ∧
+    (putRec s mp r).lastInit = s.lastInit := by
+  unfold putRec; split <;> simp
+
+theorem delRec_frame (s : St) (mp : Mp) :
+    (delRec s mp).status = s.status ∧ (delRec s mp).curFs = s.curFs ∧ (delRec s mp).cfg = s.cfg ∧
+    (delRec s mp).fsMap = s.fsMap ∧ (delRec s mp).closed = s.closed ∧ (delRec s mp).live = s.live ∧
+    (delRec s mp).nextFs = s.nextFs ∧ (delRec s mp).fsCfg = s.fsCfg ∧
+    (delRec s mp).lastInit = s.lastInit := by
+  unfold delRec; split <;> simp
+
 /-! ## the invariant -/
 
 /-- The quiescent invariant of the manager (holds between any two RPCs). -/
@@ -149,8 +165,12 @@ theorem mountCore_cases (s : St) (mp : Mp) (lab : Lab) (ok : Bool) :
     | none => simp
     | some f => cases ok <;> simp
 
-theorem inv_mounted (s : St) (mp : Mp) (f : FsId) (h : Inv s) (hn : aget mp s.fsMap = none)
-    (hc : s.curFs = some f) (hs : s.closed = false → aget mp s.store ≠ none) : Inv (s.mounted mp f) := by
+/-- A successful `fs.Mount` + `fsMap.Store`, with the store either untouched (restore: the key is
+already recorded) or extended by exactly that key (`Mount` RPC). -/
+theorem inv_mounted' (s : St) (mp : Mp) (f : FsId) (st' : List (Mp × Rec)) (h : Inv s)
+    (hn : aget mp s.fsMap = none) (hc : s.curFs = some f) (hsorted : Sorted st')
+    (hst : s.closed = false → ∀ m, aget m st' ≠ none ↔ (m = mp ∨ aget m s.store ≠ none)) :
+    Inv { s.mounted mp f with store := st' } := by
   have hl := h.live_iff
   constructor
   · exact h.ready_fs
@@ -176,13 +196,22 @@ theorem inv_mounted (s : St) (mp : Mp) (f : FsId) (h : Inv s) (hn : aget mp s.fs
   · intro hcl m
     simp only [St.mounted, aget_ains]
     have := h.sub hcl m
-    have := hs hcl
+    have := hst hcl m
     grind
   · intro hcl hli m
     simp only [St.mounted, aget_ains]
     have := h.sup hcl hli m
+    have := hst hcl m
     grind
-  · exact h.sorted
+  · exact hsorted
+
+theorem inv_mounted (s : St) (mp : Mp) (f : FsId) (h : Inv s) (hn : aget mp s.fsMap = none)
+    (hc : s.curFs = some f) (hs : s.closed = false → aget mp s.store ≠ none) : Inv (s.mounted mp f) := by
+  have := inv_mounted' s mp f s.store h hn hc h.sorted (by
+    intro hcl m
+    have := hs hcl
+    grind)
+  exact this
 
 /-- Fields `restore` never touches. -/
 def SameBut (s t : St) : Prop :=
@@ -328,5 +357,297 @@ theorem restore_spec (failMp : Mp → Bool) (f : FsId) (es : List (Mp × Rec)) :
         simp only [List.mem_singleton] at hcm
         exact ⟨mp, r.labels, false, hcm, hn, by simp [aget]⟩
       · intro _; exact ⟨mp, r.labels, by simp⟩
+
+/-! ## every operation preserves the invariant -/
+
+theorem inv_finish (s : St) (r : Resp) (calls : List Call) (h : Inv s) (hst : s.status ≠ .ready)
+    (hr : s.closed = false → r = .ok → ∀ mp, aget mp s.store ≠ none → aget mp s.fsMap ≠ none) :
+    Inv (finishInit false s r calls).st := by
+  simp only [finishInit, Bool.false_or]
+  constructor
+  · intro hrdy
+    split at hrdy
+    · rename_i hsome
+      refine ⟨?_, by simp⟩
+      intro hn
+      have hn' : s.curFs = none := hn
+      simp [hn'] at hsome
+    · exact absurd hrdy hst
+  · exact h.fs_cfg
+  · exact h.live_iff
+  · exact h.live_nodup
+  · exact h.map_lt
+  · exact h.cur_lt
+  · exact h.map_cur
+  · exact h.sub
+  · intro hcl hli
+    simp only [Option.some.injEq] at hli
+    exact hr hcl hli
+  · exact h.sorted
+
+theorem inv_withCfg (s : St) (cfg : Cfg) (h : Inv s) : Inv (s.withCfg cfg) :=
+  ⟨by simp [St.withCfg], by simp [St.withCfg], h.live_iff, h.live_nodup, h.map_lt, h.cur_lt,
+    h.map_cur, h.sub, h.sup, h.sorted⟩
+
+theorem inv_installed (s : St) (cfg : Cfg) (h : Inv s) : Inv (s.installed cfg) := by
+  refine ⟨by simp [St.installed], by simp [St.installed], h.live_iff, h.live_nodup, ?_, ?_,
+    by simp [St.installed], h.sub, h.sup, h.sorted⟩
+  · intro m g hm
+    exact Nat.lt_succ_of_lt (h.map_lt m g hm)
+  · intro g hg
+    have : s.nextFs = g := Option.some.inj hg
+    subst this
+    exact Nat.lt_succ_self _
+
+theorem inv_init (s : St) (cfg : Cfg) (stage : Stage) (failMp : Mp → Bool) (h : Inv s) :
+    Inv (init s cfg stage failMp).st := by
+  unfold init initWith
+  cases stage with
+  | parse =>
+    exact inv_finish _ _ _ ⟨by simp, h.fs_cfg, h.live_iff, h.live_nodup, h.map_lt, h.cur_lt, h.map_cur,
+      h.sub, h.sup, h.sorted⟩ (by simp) (by simp)
+  | cfgfunc => exact inv_finish _ _ _ (inv_withCfg s cfg h) (by simp [St.withCfg]) (by simp)
+  | construct => exact inv_finish _ _ _ (inv_withCfg s cfg h) (by simp [St.withCfg]) (by simp)
+  | ok =>
+    simp only
+    split
+    · exact inv_finish _ _ _ (inv_installed s cfg h) (by simp [St.installed]) (by simp)
+    · have I := restore_spec failMp s.nextFs s.store _ (inv_installed s cfg h) rfl
+        (by intro m r hm _; simp [St.installed, hm])
+      refine inv_finish _ _ _ I.inv ?_ ?_
+      · rw [I.frame.1]; simp [St.installed]
+      · intro _ hok m hm
+        rw [I.frame.2.2.2.1] at hm
+        simp only [St.installed] at hm
+        cases hr : aget m s.store with
+        | none => exact absurd hr hm
+        | some r => exact (I.onok hok m r hr).1
+
+theorem inv_putRec (s : St) (mp : Mp) (r : Rec) (h : Inv s) (hm : aget mp s.fsMap ≠ none) :
+    Inv (putRec s mp r) := by
+  unfold putRec
+  split
+  · exact h
+  · refine ⟨h.ready_fs, h.fs_cfg, h.live_iff, h.live_nodup, h.map_lt, h.cur_lt, h.map_cur, ?_, ?_,
+      sorted_ains _ _ _ h.sorted⟩
+    · intro hc m hmm
+      simp only [aget_ains]
+      have := h.sub hc m hmm
+      grind
+    · intro hc hli m
+      simp only [aget_ains]
+      have := h.sup hc hli m
+      grind
+
+/-- `fs.Mount` + `fsMap.Store` + `storeFuseInfo` as done by the `Mount` RPC. -/
+theorem inv_mounted_put (s : St) (mp : Mp) (f : FsId) (r : Rec) (h : Inv s)
+    (hn : aget mp s.fsMap = none) (hc : s.curFs = some f) : Inv (putRec (s.mounted mp f) mp r) := by
+  unfold putRec
+  have hcl : (s.mounted mp f).closed = s.closed := rfl
+  rw [hcl]
+  split
+  · rename_i hclosed
+    exact inv_mounted s mp f h hn hc (by simp [hclosed])
+  · exact inv_mounted' s mp f (ains mp r s.store) h hn hc (sorted_ains _ _ _ h.sorted) (by
+      intro _ m; simp only [aget_ains]; grind)
+
+theorem inv_mount (s : St) (mp : Mp) (lab : Lab) (ok : Bool) (h : Inv s) : Inv (mount s mp lab ok).st := by
+  unfold mount
+  split
+  · exact h
+  · rename_i hst
+    have hrdy : s.status = .ready := by simpa using hst
+    obtain ⟨hcur, _⟩ := h.ready_fs hrdy
+    have hcfg := h.fs_cfg hcur
+    rcases mountCore_cases s mp lab ok with
+      ⟨g, hg, heq⟩ | ⟨_, hcn, _⟩ | ⟨f, hn, hc, hok, heq⟩ | ⟨f, hn, hc, hok, heq⟩
+    · rw [heq]; simp only
+      cases hc : s.cfg with
+      | none => exact absurd hc hcfg
+      | some c => exact inv_putRec s mp _ h (by simp [hg])
+    · exact absurd hcn hcur
+    · rw [heq]; simp only
+      have : (s.mounted mp f).cfg = s.cfg := rfl
+      rw [this]
+      cases hc' : s.cfg with
+      | none => exact absurd hc' hcfg
+      | some c => exact inv_mounted_put s mp f _ h hn hc
+    · rw [heq]; exact h
+
+theorem inv_check (s : St) (mp : Mp) (lab : Lab) (ok : Bool) (h : Inv s) : Inv (check s mp lab ok).st := by
+  unfold check
+  split
+  · exact h
+  · split <;> exact h
+
+/-- A successful `fs.Unmount` + `fsMap.Delete` (+ `removeFuseInfo` unless the store is closed). -/
+theorem inv_unmounted (s : St) (mp : Mp) (f : FsId) (st' : List (Mp × Rec)) (h : Inv s)
+    (hf : aget mp s.fsMap = some f) (hsorted : Sorted st')
+    (hst : s.closed = false → ∀ m, aget m st' = if m = mp then none else aget m s.store) :
+    Inv { s with fsMap := adel mp s.fsMap, live := s.live.filter (fun e => e != (f, mp)), store := st' } := by
+  have hl := h.live_iff
+  refine ⟨h.ready_fs, h.fs_cfg, ?_, ?_, ?_, h.cur_lt, ?_, ?_, ?_, hsorted⟩
+  · intro g m
+    simp only [List.mem_filter, aget_adel, bne_iff_ne, ne_eq, Prod.mk.injEq, not_and]
+    have := hl g m
+    grind
+  · exact List.Nodup.sublist (List.Sublist.map _ List.filter_sublist) h.live_nodup
+  · intro m g
+    simp only [aget_adel]
+    have := h.map_lt m g
+    grind
+  · intro m g
+    simp only [aget_adel]
+    have := h.map_cur m g
+    grind
+  · intro hcl m
+    have := hst hcl m
+    have := h.sub hcl m
+    simp only [aget_adel]
+    grind
+  · intro hcl hli m
+    have := hst hcl m
+    have := h.sup hcl hli m
+    simp only [aget_adel]
+    grind
+
+theorem inv_unmount (s : St) (mp : Mp) (ok isOs : Bool) (h : Inv s) : Inv (unmount s mp ok isOs).st := by
+  unfold unmount
+  split
+  · exact h
+  · split
+    · exact h
+    · rename_i f hf
+      split
+      · unfold delRec
+        simp only
+        split
+        · rename_i hcl
+          exact inv_unmounted s mp f s.store h hf h.sorted (by simp [hcl])
+        · exact inv_unmounted s mp f (adel mp s.store) h hf (sorted_adel _ _ h.sorted)
+            (by intro _ m; exact aget_adel mp m s.store)
+      · exact h
+
+theorem inv_close (s : St) (h : Inv s) : Inv (close s).st := by
+  unfold close
+  split
+  · exact ⟨by simp, h.fs_cfg, h.live_iff, h.live_nodup, h.map_lt, h.cur_lt, h.map_cur, h.sub, h.sup, h.sorted⟩
+  · exact ⟨by simp, h.fs_cfg, h.live_iff, h.live_nodup, h.map_lt, h.cur_lt, h.map_cur, by simp, by simp,
+      sorted_nil⟩
+
+theorem inv_restart (s : St) (h : Inv s) : Inv (restartManager s).st := by
+  unfold restartManager
+  exact ⟨by simp, by simp, by simp [aget], by simp, by simp [aget], by simp, by simp [aget],
+    by simp [aget], by simp, h.sorted⟩
+
+theorem inv_step (s : St) (op : Op) (h : Inv s) : Inv (step s op).st := by
+  cases op with
+  | init c st fm => exact inv_init s c st fm h
+  | mount mp l ok => exact inv_mount s mp l ok h
+  | check mp l ok => exact inv_check s mp l ok h
+  | unmount mp ok os => exact inv_unmount s mp ok os h
+  | close => exact inv_close s h
+  | restart => exact inv_restart s h
+
+theorem inv_run (ops : List Op) : ∀ s, Inv s → Inv (run s ops) := by
+  induction ops with
+  | nil => intro s h; exact h
+  | cons op ops ih => intro s h; exact ih _ (inv_step s op h)
+
+theorem inv_reachable (s : St) (h : Reachable s) : Inv s := by
+  obtain ⟨ops, rfl⟩ := h
+  exact inv_run ops _ inv_init0
+
+theorem reachable_step (s : St) (op : Op) (h : Reachable s) : Reachable (step s op).st := by
+  obtain ⟨ops, rfl⟩ := h
+  exact ⟨ops ++ [op], by simp [run, runWith, step]⟩
+
+/-! ## what `Init` does, in terms of its inputs -/
+
+/-- Facts about one `Init` from a state satisfying the invariant. -/
+structure InitSpec (s : St) (cfg : Cfg) (stage : Stage) (o : Out) : Prop where
+  nopanic : o.resp ≠ .panic
+  lastInit : o.st.lastInit = some o.resp
+  closed : o.st.closed = s.closed
+  store : o.st.store = s.store
+  status : o.st.status = if o.st.curFs.isSome then .ready else .waitInit
+  cur_ok : stage = .ok → o.st.curFs = some s.nextFs ∧ aget s.nextFs o.st.fsCfg = some cfg ∧
+    o.st.nextFs = s.nextFs + 1 ∧ Call.newFs s.nextFs cfg ∈ o.calls
+  cur_fail : stage ≠ .ok → o.st.curFs = s.curFs ∧ o.st.fsMap = s.fsMap ∧ o.st.live = s.live ∧
+    o.st.nextFs = s.nextFs ∧ o.resp = .err
+  mono : ∀ mp g, aget mp s.fsMap = some g → aget mp o.st.fsMap = some g
+  fresh : ∀ mp g, aget mp o.st.fsMap = some g → aget mp s.fsMap = some g ∨
+    (aget mp s.fsMap = none ∧ g = s.nextFs ∧
+      ∃ r, aget mp s.store = some r ∧ Call.mount s.nextFs mp r.labels true ∈ o.calls)
+  mounts : ∀ g mp lab ok, Call.mount g mp lab ok ∈ o.calls →
+    stage = .ok ∧ g = s.nextFs ∧ aget mp s.fsMap = none ∧ aget mp s.store ≠ none
+  others : ∀ c ∈ o.calls, (∀ g mp lab ok, c ≠ Call.check g mp lab ok) ∧ (∀ g mp ok, c ≠ Call.unmount g mp ok)
+  onok : o.resp = .ok → stage = .ok ∧ s.closed = false ∧ ∀ mp r, aget mp s.store = some r →
+    aget mp o.st.fsMap ≠ none ∧
+    (aget mp s.fsMap = none → Call.mount s.nextFs mp r.labels true ∈ o.calls ∧
+      aget mp o.st.fsMap = some s.nextFs)
+
+theorem init_spec (s : St) (cfg : Cfg) (stage : Stage) (failMp : Mp → Bool) (h : Inv s) :
+    InitSpec s cfg stage (init s cfg stage failMp) := by
+  unfold init initWith
+  cases stage with
+  | parse =>
+    simp only [finishInit, Bool.false_or]
+    exact ⟨by simp, rfl, rfl, rfl, by simp, by simp, by simp, fun _ _ h => h, fun _ _ h => Or.inl h,
+      by simp, by simp, by simp⟩
+  | cfgfunc =>
+    simp only [finishInit, Bool.false_or, St.withCfg]
+    exact ⟨by simp, rfl, rfl, rfl, by simp, by simp, by simp, fun _ _ h => h, fun _ _ h => Or.inl h,
+      by simp, by simp, by simp⟩
+  | construct =>
+    simp only [finishInit, Bool.false_or, St.withCfg]
+    exact ⟨by simp, rfl, rfl, rfl, by simp, by simp, by simp, fun _ _ h => h, fun _ _ h => Or.inl h,
+      by simp, by simp, by simp⟩
+  | ok =>
+    simp only
+    split
+    · rename_i hcl
+      simp only [finishInit, Bool.false_or, St.installed]
+      refine ⟨by simp, rfl, rfl, rfl, by simp, by simp [aget_ains], by simp, fun _ _ h => h,
+        fun _ _ h => Or.inl h, by simp, by simp, by simp⟩
+    · rename_i hcl
+      have I := restore_spec failMp s.nextFs s.store _ (inv_installed s cfg h) rfl
+        (by intro m r hm _; simp [St.installed, hm])
+      generalize restore failMp s.store (s.installed cfg) = ro at I ⊢
+      obtain ⟨F1, F2, F3, F4, F5, F6, F7, F8⟩ := I.frame
+      have F2' : ro.st.curFs = some s.nextFs := F2
+      have F4' : ro.st.store = s.store := F4
+      have F5' : ro.st.closed = s.closed := F5
+      have F6' : ro.st.nextFs = s.nextFs + 1 := F6
+      have F7' : ro.st.fsCfg = ains s.nextFs cfg s.fsCfg := F7
+      simp only [finishInit, Bool.false_or]
+      refine ⟨I.nopanic, rfl, F5', F4', ?_, ?_, by simp, I.mono, ?_, ?_, ?_, ?_⟩
+      · simp [F2']
+      · intro _
+        exact ⟨F2', by simp [F7', aget_ains], F6', by simp⟩
+      · intro m g hm
+        rcases I.fresh m g hm with h1 | ⟨h1, h2, r, h3, h4⟩
+        · exact Or.inl h1
+        · exact Or.inr ⟨h1, h2, r, h3, by simp [h4]⟩
+      · intro g m lab ok hc
+        simp only [List.cons_append, List.nil_append, List.mem_cons, reduceCtorEq, false_or] at hc
+        obtain ⟨m', lab', ok', h1, h2, h3⟩ := I.calls _ hc
+        simp only [Call.mount.injEq] at h1
+        obtain ⟨rfl, rfl, rfl, rfl⟩ := h1
+        exact ⟨rfl, rfl, h2, h3⟩
+      · intro c hc
+        simp only [List.cons_append, List.nil_append, List.mem_cons] at hc
+        rcases hc with rfl | rfl | hc
+        · simp
+        · simp
+        · obtain ⟨m', lab', ok', h1, _, _⟩ := I.calls _ hc
+          subst h1; simp
+      · intro hok
+        refine ⟨rfl, by simpa using hcl, ?_⟩
+        intro m r hm
+        have := I.onok hok m r hm
+        exact ⟨this.1, fun hn => by
+          have := this.2 hn
+          exact ⟨by simp [this.1], this.2⟩⟩
 
 end SV.FuseMgr
